@@ -133,6 +133,7 @@ type Sim struct {
 	spawned      []*Task
 	pointsInStep int
 	coopProgress int // successful cooperative operations (lock taken, value sent/received)
+	mail         []*mailItem
 	finishedRun  bool
 	clock
 
@@ -147,6 +148,12 @@ type Sim struct {
 }
 
 var cur *Sim
+
+// EarlierOrphans counts goroutines the library started in earlier runs of
+// this process and that are still alive (parked for ever). If a later run
+// deadlocks while such goroutines exist, the runs are not independent
+// (package-level state): the worker asks to be re-run in isolation (exit 77).
+var EarlierOrphans int
 
 // NewSim returns a run environment drawing schedule choices from sched.
 func NewSim(sched *Stream) *Sim {
@@ -544,6 +551,10 @@ func (s *Sim) Run(estSteps int) {
 			}
 			if blockedOnly > 3*k+16 {
 				raceEnable()
+				if EarlierOrphans > 0 {
+					fmt.Fprintf(os.Stderr, "ISOLATE: all %d live tasks are blocked while %d goroutines started by the library in earlier runs of this process are parked: runs depend on each other\n", k, EarlierOrphans)
+					os.Exit(77)
+				}
 				fmt.Fprintf(os.Stderr, "INFRA: deadlock among simulated tasks: all %d live tasks are blocked and no timer is pending (step %d)\n", k, s.step)
 				os.Exit(2)
 			}
@@ -663,6 +674,22 @@ func (s *Sim) Run(estSteps int) {
 	raceEnable()
 	close(stop)
 	s.wg.Wait()
+}
+
+// Orphans returns how many goroutines started by the library were still alive
+// (parked for ever) when the run ended. Package-level state of that kind
+// outlives a run, so the worker isolates the following runs in processes of
+// their own.
+//
+//go:norace
+func (s *Sim) Orphans() int {
+	n := 0
+	for i := 0; i < len(s.tasks); i++ {
+		if !s.tasks[i].root && !s.tasks[i].finished {
+			n++
+		}
+	}
+	return n
 }
 
 // Steps returns the number of scheduler steps executed.
